@@ -113,6 +113,11 @@ type ViolationReport struct {
 	MinOps      int    `json:"min_ops"`
 	OrigOps     int    `json:"orig_ops"`
 	Fingerprint string `json:"fingerprint"`
+	// Alternates are unminimised scripts of the first few occurrences. A
+	// violation that depends on state the process accumulated over earlier
+	// runs does not reproduce from a script minimised inside that process;
+	// the driver then tries these in fresh processes and minimises there.
+	Alternates []string `json:"alternates,omitempty"`
 }
 
 // WorkerResult is what one worker process writes for the driver to merge.
@@ -338,6 +343,18 @@ func WorkerMain(t *testing.T, w World) {
 		for _, v := range o.Violations {
 			if idx, ok := seen[v.Class]; ok {
 				res.Violations[idx].Count++
+				if replayDir != "" && len(res.Violations[idx].Alternates) < 4 {
+					alt := s.Clone()
+					alt.Expect = &Expect{ViolationClass: v.Class, Fingerprint: fp, Detail: v.Detail}
+					name := strings.Trim(classSan.ReplaceAllString(v.Class, "_"), "_")
+					if len(name) > 110 {
+						name = name[:110]
+					}
+					ap := filepath.Join(replayDir, fmt.Sprintf("%s-%d.alt.json", name, runSeed))
+					if alt.Save(ap) == nil {
+						res.Violations[idx].Alternates = append(res.Violations[idx].Alternates, ap)
+					}
+				}
 				continue
 			}
 			min, mo := Minimise(t, w, s, v.Class, 400, 90*time.Second)
@@ -368,6 +385,14 @@ func WorkerMain(t *testing.T, w World) {
 					res.Infra = append(res.Infra, "save replay: "+err.Error())
 				}
 				vr.Replay = p
+				if vr.MinOps < vr.OrigOps {
+					orig := s.Clone()
+					orig.Expect = &Expect{ViolationClass: v.Class, Fingerprint: fp, Detail: v.Detail}
+					ap := filepath.Join(replayDir, fmt.Sprintf("%s-%d.alt.json", name, runSeed))
+					if orig.Save(ap) == nil {
+						vr.Alternates = append(vr.Alternates, ap)
+					}
+				}
 			}
 			seen[v.Class] = len(res.Violations)
 			res.Violations = append(res.Violations, vr)
